@@ -186,25 +186,18 @@ func (s *SchemaValidator) Validate(data interface{}) *Result {
 	// TODO: this part should be handed over to type validator
 	// Handle special case of json.Number data (number marshalled as string)
 	isnumber := s.Schema.Type.Contains(numberType) || s.Schema.Type.Contains(integerType)
-	if num, ok := data.(json.Number); ok && isnumber {
-		if s.Schema.Type.Contains(integerType) { // avoid lossy conversion
-			in, erri := num.Int64()
-			if erri != nil {
-				result.AddErrors(invalidTypeConversionMsg(s.Path, erri))
-				result.Inc()
-
-				return result
-			}
+	if num, ok := data.(json.Number); ok {
+		// a json.Number is validated as the number it denotes, whatever types the schema lists:
+		// an integer literal as int64 (no lossy conversion), any other literal as float64
+		if in, erri := num.Int64(); erri == nil {
 			d = in
-		} else {
-			nf, errf := num.Float64()
-			if errf != nil {
-				result.AddErrors(invalidTypeConversionMsg(s.Path, errf))
-				result.Inc()
-
-				return result
-			}
+		} else if nf, errf := num.Float64(); errf == nil {
 			d = nf
+		} else if isnumber {
+			result.AddErrors(invalidTypeConversionMsg(s.Path, errf))
+			result.Inc()
+
+			return result
 		}
 
 		tpe = reflect.TypeOf(d)
